@@ -177,6 +177,113 @@ Qed.
 Print Assumptions C24_tamper_classes.
 
 (** ------------------------------------------------------------------
+    The same in a world described by a list [H] of honest signing records — any
+    number of segments and of records per signer — and with NO condition on the
+    struct field Local of the altered entry (audit follow-up). *)
+Definition worldH (PK : Type) (sig_valid : PK -> bytes -> bytes -> bool) (hash : N -> bytes -> bytes)
+           (SK : Type) (sign_with : SK -> bytes -> bytes) (pub : SK -> PK) (H : list (record SK)) : Prop :=
+  unforgeableH PK sig_valid hash SK sign_with pub H /\ collision_free hash /\ hashedH SK H.
+
+(** An entry verified against bytes, or carrying a signature, that the holder of
+    the only key certified for the ISD-AS it claims never produced makes the
+    segment fail — whatever its Local says, wherever the entry came from. *)
+Theorem C24_tamper_fresh :
+  forall PK sig_valid hash kind notify certs_for SK sign_with pub H,
+    worldH PK sig_valid hash SK sign_with pub H ->
+    forall s' A' e' S' ia pk0,
+      s_entries s' = A' ++ e' :: S' ->
+      claimed_ia e' = Some ia -> cert_only PK certs_for ia pk0 ->
+      (forall r, In r H -> pub (r_sk SK r) = pk0 ->
+         r_raw SK r <> raw (s_info s') A' e' \/ r_sig hash SK sign_with r <> e_sig e') ->
+      verify_segment PK sig_valid hash kind notify certs_for s' = false.
+Proof. intros until H. intros (H1 & H2 & H3). intros. eapply tamper_fresh; eauto. Qed.
+Print Assumptions C24_tamper_fresh.
+
+(** altering only the struct field Local (the signed bytes still claim [ia]) is
+    rejected by the verifier's binding, without any cryptographic assumption *)
+Theorem C24_local_mismatch_rejected :
+  forall PK sig_valid hash kind notify certs_for s' A' e' S' ia,
+    s_entries s' = A' ++ e' :: S' -> claimed_ia e' = Some ia ->
+    e_local e' <> 0 -> e_local e' <> ia ->
+    verify_segment PK sig_valid hash kind notify certs_for s' = false.
+Proof. intros. eapply bound_mismatch_rejected; eauto. Qed.
+Print Assumptions C24_local_mismatch_rejected.
+
+(** The mutation classes around an honest entry [e] (after [A] in [s], claiming
+    [ia], signer [sk] whose key is the only one certified for [ia] and signed
+    nothing but this entry; all other signers unrestricted).  The altered entry
+    [e'] only has to claim [ia] in its signed header; its Local is arbitrary. *)
+Theorem C24_tamper_classes_H :
+  forall PK sig_valid hash kind notify certs_for SK sign_with pub H,
+    worldH PK sig_valid hash SK sign_with pub H ->
+    let V := verify_segment PK sig_valid hash kind notify certs_for in
+    let HE := honest_entry PK hash certs_for SK sign_with pub H in
+    (* segment info altered *)
+    (forall s e sk ia S' info' ts', HE s [] e sk ia -> info' <> s_info s ->
+        V (mkseg info' ts' (e :: S')) = false) /\
+    (* the entry's signed bytes altered (still claiming ia, e.g. ISD-AS in the body, hop field, MTU) *)
+    (forall s A e sk ia e' S' ts', HE s A e sk ia -> claimed_ia e' = Some ia -> e_hb e' <> e_hb e ->
+        V (mkseg (s_info s) ts' (A ++ e' :: S')) = false) /\
+    (* the entry's signature altered *)
+    (forall s A e sk ia e' S' ts', HE s A e sk ia -> claimed_ia e' = Some ia -> e_sig e' <> e_sig e ->
+        V (mkseg (s_info s) ts' (A ++ e' :: S')) = false) /\
+    (* an earlier entry or earlier signature altered *)
+    (forall s A x B e sk ia x' S' ts', HE s (A ++ x :: B) e sk ia -> fl x' <> fl x ->
+        V (mkseg (s_info s) ts' (A ++ x' :: B ++ e :: S')) = false) /\
+    (* an earlier entry removed *)
+    (forall s A x B e sk ia S' ts', HE s (A ++ x :: B) e sk ia -> fl x <> [] ->
+        V (mkseg (s_info s) ts' (A ++ B ++ e :: S')) = false) /\
+    (* an entry inserted before *)
+    (forall s A x B e sk ia S' ts', HE s (A ++ B) e sk ia -> fl x <> [] ->
+        V (mkseg (s_info s) ts' (A ++ x :: B ++ e :: S')) = false) /\
+    (* reordering: the entry moved in front of a block B of earlier entries *)
+    (forall s A B e sk ia S' ts', HE s (A ++ B) e sk ia -> concat (pairs B) <> [] ->
+        V (mkseg (s_info s) ts' (A ++ e :: B ++ S')) = false).
+Proof.
+  intros until H. intros (H1 & H2 & H3) V HE.
+  assert (Core := fun s A e sk ia => tamper_coreH PK sig_valid hash kind notify certs_for SK sign_with pub H
+                                                  s A e sk ia).
+  assert (Cl : forall s A e sk ia, HE s A e sk ia -> claimed_ia e = Some ia) by (intros ? ? ? ? ? (C & _); exact C).
+  repeat split.
+  - intros s e sk ia S' info' ts' He D. eapply (Core s [] e sk ia _ [] e S'); eauto.
+    left. cbn [s_info]. now apply raw_info_diff.
+  - intros s A e sk ia e' S' ts' He C D. eapply (Core s A e sk ia _ A e' S'); eauto.
+    left. cbn [s_info]. now apply raw_own_hb.
+  - intros s A e sk ia e' S' ts' He C D. eapply (Core s A e sk ia _ A e' S'); eauto.
+  - intros s A x B e sk ia x' S' ts' He D.
+    eapply (Core s (A ++ x :: B) e sk ia _ (A ++ x' :: B) e S'); eauto.
+    + cbn [s_entries]. now rewrite <- app_assoc.
+    + left. cbn [s_info]. now apply raw_earlier_replaced.
+  - intros s A x B e sk ia S' ts' He D.
+    eapply (Core s (A ++ x :: B) e sk ia _ (A ++ B) e S'); eauto.
+    + cbn [s_entries]. now rewrite <- app_assoc.
+    + left. cbn [s_info]. now apply raw_earlier_removed.
+  - intros s A x B e sk ia S' ts' He D.
+    eapply (Core s (A ++ B) e sk ia _ (A ++ x :: B) e S'); eauto.
+    + cbn [s_entries]. now rewrite <- app_assoc.
+    + left. cbn [s_info]. now apply raw_earlier_inserted.
+  - intros s A B e sk ia S' ts' He D.
+    eapply (Core s (A ++ B) e sk ia _ A e (B ++ S')); eauto.
+    left. cbn [s_info]. now apply raw_block_removed.
+Qed.
+Print Assumptions C24_tamper_classes_H.
+
+(** block move in the one-segment world of [ideal] as well *)
+Theorem C24_block_move_rejected :
+  forall PK sig_valid hash kind notify certs_for SK sign_with pub s sks,
+    ideal PK sig_valid hash certs_for SK sign_with pub s sks ->
+    forall A B e S S' ts', s_entries s = A ++ B ++ e :: S -> concat (pairs B) <> [] ->
+      verify_segment PK sig_valid hash kind notify certs_for (mkseg (s_info s) ts' (A ++ e :: B ++ S')) = false.
+Proof.
+  intros until sks. intros Hid A B e S S' ts' E D.
+  eapply (C24_tamper_rejected PK sig_valid hash kind notify certs_for SK sign_with pub s sks Hid
+                              _ (A ++ B) e S A e (B ++ S')); eauto.
+  - now rewrite <- app_assoc.
+  - left. cbn [s_info]. now apply raw_block_removed.
+Qed.
+Print Assumptions C24_block_move_rejected.
+
+(** ------------------------------------------------------------------
     The chain cache of trust.Verifier (after the fix: keyed by the whole query
     ISD-AS, subject key id AND validity).  A cache whose key determines the
     query is invisible; one keyed by less is not. *)
@@ -345,3 +452,75 @@ Proof.
   - constructor; [intros []|constructor].
 Qed.
 Print Assumptions C24_ideal_instance.
+
+(** ------------------------------------------------------------------
+    Two-entry instances (audit follow-up): the classes that need an earlier entry
+    are not vacuous.  Scheme: exactly the two honest triples of [ex_seg] are
+    accepted; key 5 is certified for ia1, key 6 for every other ISD-AS. *)
+Definition D1 : bytes := dig hash_c (algo_of ex_e1) (raw ex_info [] ex_e1).
+Definition D2 : bytes := dig hash_c (algo_of ex_e2) (raw ex_info [ex_e1] ex_e2).
+Definition sv2 (pk : N) (d sg : bytes) : bool :=
+  ((pk =? 5) && bytes_eqb d D1 && bytes_eqb sg [101]) || ((pk =? 6) && bytes_eqb d D2 && bytes_eqb sg [102]).
+Definition cf2 (ia : N) (_ : bytes) (_ : validity) : option (list N) := if ia =? ia1 then Some [5] else Some [6].
+Definition sw2 (sk : N) (_ : bytes) : bytes := if sk =? 5 then [101] else [102].
+
+Lemma Dec2 : forall A (e : entry) S, [ex_e1; ex_e2] = A ++ e :: S ->
+  (A = [] /\ e = ex_e1 /\ S = [ex_e2]) \/ (A = [ex_e1] /\ e = ex_e2 /\ S = []).
+Proof.
+  intros [|a [|b A]] e S E; cbn in E; inversion E; subst; auto.
+  destruct A; discriminate.
+Qed.
+
+Lemma hash_c_collision_free : collision_free hash_c.
+Proof.
+  intros a a' x x' Ha Ha' E. unfold dig in E.
+  destruct (hash_of a =? 0) eqn:Z1; [apply N.eqb_eq in Z1; contradiction|].
+  destruct (hash_of a' =? 0) eqn:Z2; [apply N.eqb_eq in Z2; contradiction|].
+  unfold hash_c in E. now inversion E.
+Qed.
+
+Theorem C24_ideal_instance_two_entries :
+  ideal N sv2 hash_c cf2 N sw2 (fun k => k) ex_seg [5; 6].
+Proof.
+  unfold ideal. split; [|split; [|split; [|split]]].
+  - split; [reflexivity|]. intros A e S sk E Hn. destruct (Dec2 A e S E) as [(-> & -> & ->)|(-> & -> & ->)];
+    cbn in Hn; inversion Hn; subst; (split; [vm_compute; discriminate|reflexivity]).
+  - intros pk d sg Hv. unfold sv2 in Hv. apply orb_true_iff in Hv as [Hv|Hv];
+    apply andb_true_iff in Hv as [Hv H3]; apply andb_true_iff in Hv as [H1 H2];
+    apply N.eqb_eq in H1; apply bytes_eqb_eq in H2; apply bytes_eqb_eq in H3; subst.
+    + exists [], ex_e1, [ex_e2], 5. repeat split; reflexivity.
+    + exists [ex_e1], ex_e2, [], 6. repeat split; reflexivity.
+  - exact hash_c_collision_free.
+  - intros A e S sk E Hn. destruct (Dec2 A e S E) as [(-> & -> & ->)|(-> & -> & ->)];
+    cbn in Hn; inversion Hn; subst; (split; [vm_compute; discriminate|]);
+    intros skid v keys pk Hc Hin; vm_compute in Hc; inversion Hc; subst; destruct Hin as [<-|[]]; reflexivity.
+  - repeat constructor; cbn; intuition discriminate.
+Qed.
+Print Assumptions C24_ideal_instance_two_entries.
+
+(** the world [worldH] with the two honest records, both entries honest *)
+Definition rec1 : record N := mkrec N 5 (algo_of ex_e1) ex_hb1 (assoc ex_info []).
+Definition rec2 : record N := mkrec N 6 (algo_of ex_e2) ex_hb2 (assoc ex_info [ex_e1]).
+
+Theorem C24_worldH_instance :
+  worldH N sv2 hash_c N sw2 (fun k => k) [rec1; rec2] /\
+  honest_entry N hash_c cf2 N sw2 (fun k => k) [rec1; rec2] ex_seg [] ex_e1 5 ia1 /\
+  honest_entry N hash_c cf2 N sw2 (fun k => k) [rec1; rec2] ex_seg [ex_e1] ex_e2 6 ia2.
+Proof.
+  split; [|split].
+  - split; [|split].
+    + intros pk d sg Hv. unfold sv2 in Hv. apply orb_true_iff in Hv as [Hv|Hv];
+      apply andb_true_iff in Hv as [Hv H3]; apply andb_true_iff in Hv as [H1 H2];
+      apply N.eqb_eq in H1; apply bytes_eqb_eq in H2; apply bytes_eqb_eq in H3; subst.
+      * exists rec1. split; [now left|reflexivity].
+      * exists rec2. split; [right; now left|reflexivity].
+    + exact hash_c_collision_free.
+    + intros r [<-|[<-|[]]]; vm_compute; discriminate.
+  - split; [vm_compute; reflexivity|]. split.
+    + intros skid v keys pk Hc Hin. vm_compute in Hc. inversion Hc; subst. destruct Hin as [<-|[]]. reflexivity.
+    + intros r [<-|[<-|[]]] Hk; [split; reflexivity|]. cbn in Hk. discriminate.
+  - split; [vm_compute; reflexivity|]. split.
+    + intros skid v keys pk Hc Hin. vm_compute in Hc. inversion Hc; subst. destruct Hin as [<-|[]]. reflexivity.
+    + intros r [<-|[<-|[]]] Hk; [cbn in Hk; discriminate|split; reflexivity].
+Qed.
+Print Assumptions C24_worldH_instance.
